@@ -53,7 +53,7 @@ theorem ptrLoop_pre : ∀ (p w : List Char) (fuel d : Nat), p.all (fun c => c ==
 theorem parseDeclarator_lexeme (pre w : List Char) (bits : Option (List Char × List Char × List Char)) (cnt : Option (List Char))
     (hwf : (Lexeme.name pre w bits cnt).wf = true) :
     parseDeclarator (Lexeme.name pre w bits cnt).text =
-      let dims := match cnt with | some c => splitDims c | none => []
+      let dims := match cnt with | some c => (splitDims c).map strip | none => []
       if dims.dropLast.any (·.isEmpty) then .error .depthRequired
       else .ok ⟨stars pre, w, dims, bits.map fun t => digitsToNat t.2.2⟩ := by
   have m := matchName_lexeme spOK_U pre w bits cnt hwf [] [] rfl
@@ -79,6 +79,62 @@ theorem parseDeclarator_lexeme (pre w : List Char) (bits : Option (List Char × 
   unfold parseDeclarator
   simp only [m, hloop, hstrip, Option.map_map]
   cases cnt <;> rfl
+
+-- ------------------------------------------------------------------------------------------------ blanks inside array brackets
+theorem dropWhile_append_some (p : Char → Bool) : ∀ (t b : List Char), (∃ c ∈ t, p c = false) →
+    (t ++ b).dropWhile p = t.dropWhile p ++ b
+  | [], _, h => by obtain ⟨c, hc, -⟩ := h; simp at hc
+  | d :: t, b, h => by
+    by_cases hd : p d = true
+    · obtain ⟨c, hc, hpc⟩ := h
+      have hc' : c ∈ t := by
+        rcases List.mem_cons.mp hc with rfl | h'
+        · rw [hd] at hpc; exact absurd hpc (by simp)
+        · exact h'
+      simp [List.dropWhile, hd, dropWhile_append_some p t b ⟨c, hc', hpc⟩]
+    · simp [List.dropWhile, hd]
+
+theorem rstrip_append_ws (u b : List Char) (hb : b.all isWs = true) : rstrip (u ++ b) = rstrip u := by
+  unfold rstrip rstripBy
+  rw [List.reverse_append, (takeWhile_app_all isWs b.reverse u.reverse (by simpa using hb)).2]
+
+/-- `str.strip()` does not see white space around the text -/
+theorem strip_pad (a t b : List Char) (ha : a.all isWs = true) (hb : b.all isWs = true) : strip (a ++ t ++ b) = strip t := by
+  unfold strip lstrip
+  rw [List.append_assoc, (takeWhile_app_all isWs a (t ++ b) ha).2]
+  by_cases ht : t.all isWs = true
+  · have hnil : ∀ (l : List Char), l.all isWs = true → l.dropWhile isWs = [] := fun l hl => by
+      have := (takeWhile_app_all isWs l [] hl).2
+      simpa using this
+    have h1 : (t ++ b).dropWhile isWs = [] := by
+      rw [(takeWhile_app_all isWs t b ht).2]
+      exact hnil b hb
+    rw [h1, hnil t ht]
+  · have : ∃ c ∈ t, isWs c = false := by simpa using ht
+    rw [dropWhile_append_some isWs t b this, rstrip_append_ws _ b hb]
+
+theorem splitDims_single : ∀ (l : List Char), (∀ c ∈ l, c ≠ ']') → splitDims l = [l]
+  | [], _ => rfl
+  | [_], _ => rfl
+  | c :: d :: r, h => by
+    have hc : c ≠ ']' := h c (by simp)
+    have ih := splitDims_single (d :: r) (fun x hx => h x (by simp [hx]))
+    simp [splitDims, hc, ih]
+
+/-- one dimension with blanks around its count text: the recorded dimension is the same -/
+theorem dims_pad (a t b : List Char) (ha : blank a = true) (hb : blank b = true) (ht : ∀ c ∈ t, c ≠ ']') :
+    (splitDims (a ++ t ++ b)).map strip = (splitDims t).map strip := by
+  have hnb : ∀ (s : List Char), blank s = true → ∀ c ∈ s, c ≠ ']' := fun s hs c hc =>
+    (wsA_not c ((List.all_eq_true.mp hs) c hc)).2.2.2.2.2.1
+  have hall : ∀ c ∈ a ++ t ++ b, c ≠ ']' := by
+    intro c hc
+    simp only [List.mem_append] at hc
+    rcases hc with (h | h) | h
+    · exact hnb a ha c h
+    · exact ht c h
+    · exact hnb b hb c h
+  rw [splitDims_single _ hall, splitDims_single t ht]
+  simpa [List.append_assoc] using strip_pad a t b (blank_ws a ha) (blank_ws b hb)
 
 -- ------------------------------------------------------------------------------------------------ " ".join(type.split())
 /-- words with a non-empty blank string in front of each further word -/
